@@ -297,8 +297,70 @@ def run(ctx):
            and "np.arange(seq2_start + start_offset, seq2_start + stop_offset)" in ut,
            "the diagonal stretch must run from seed - upstream length to seed + downstream length inclusive", au.lineno)
 
+    extra_rules(ctx)
+
+
+def extra_rules(ctx):
+    from ..exprnorm import check_spec, same_expr as _same
+    from ..lints import out_params_written
+    from .. import facts as _facts
+    from ..exprnorm import spec as _spec
+    # ---- banded: the 'minus infinity' of cells outside the band leaves head-room for ONE gap penalty PLUS one negative
+    # substitution score (a band-edge cell holds neg_inf + penalty and the next diagonal step adds a score to it)
+    from ..exprnorm import local_value
+    ab = ctx.src(BD).func("align_banded")
+    nv = local_value(ab, "neg_inf")
+    ctx.need(nv is not None, "neg_inf of align_banded")
+    ctx.ob("R3.sentinel-headroom", BD, "align_banded", "neg_inf = INT32_MIN - min penalty - min(0, min score)",
+           _same(nv, "np.iinfo(np.int32).min - (min(gap_penalty) if affine_penalty else gap_penalty) - "
+                     "(np.min(matrix.score_matrix()) if np.min(matrix.score_matrix()) < 0 else 0)"),
+           "the sentinel must stay above INT32_MIN after a gap penalty and a negative substitution score have BOTH been added (a band-edge "
+           "cell holds neg_inf + penalty and the next diagonal step adds a score to it); the code computes " + ast.unparse(nv)[:200], ab.lineno)
+    # ---- gapped seed extension: the upstream part reverses code[start - 1::-1] of BOTH sequences: it is skipped when either start is 0
+    # (start - 1 = -1 would slice the whole reversed sequence)
+    lg = ctx.src(LG).func("align_local_gapped")
+    neg_slices = sorted({x.value.slice.lower.left.id for x in ast.walk(lg) if isinstance(x, ast.Subscript) and isinstance(x.slice, ast.Slice)
+                         and isinstance(x.slice.lower, ast.BinOp) and isinstance(x.slice.lower.op, ast.Sub) and isinstance(x.slice.lower.left, ast.Name)
+                         and isinstance(x.slice.lower.right, ast.Constant) and x.slice.lower.right.value == 1 and x.slice.step is not None
+                         for x in [ast.Subscript(value=x, slice=None, ctx=ast.Load())]} if False else
+                        {x.slice.lower.left.id for x in ast.walk(lg) if isinstance(x, ast.Subscript) and isinstance(x.slice, ast.Slice)
+                         and isinstance(x.slice.lower, ast.BinOp) and isinstance(x.slice.lower.op, ast.Sub) and isinstance(x.slice.lower.left, ast.Name)
+                         and isinstance(x.slice.lower.right, ast.Constant) and x.slice.lower.right.value == 1 and x.slice.step is not None})
+    ctx.need(len(neg_slices) == 2, "reversed upstream slices code[start - 1::-1] of align_local_gapped")
+    offs = [st for st in ast.walk(lg) if isinstance(st, ast.If) and any(isinstance(b, ast.Assign) and _same(b.targets[0], "upstream") and _same(b.value, "False") for b in st.body)
+            and not st.orelse]
+    want_t = " or ".join(f"{v} == 0" for v in neg_slices)
+    ctx.ob("R2.upstream-needs-both-starts", LG, "align_local_gapped", f"if {want_t}: upstream = False",
+           any(_same(st.test, want_t) for st in offs),
+           f"the upstream extension slices code[start - 1::-1] for {neg_slices}: it has to be switched off when EITHER start is 0 "
+           "(with `and`, a seed at index 0 of one sequence aligns against the whole reversed other sequence)", lg.lineno)
+    # ---- gapped seed extension, table fill: a cell that was pruned (score 0 = never reached from the seed) is not extended
+    # by a substitution score (a positive score would otherwise start a new path away from the seed)
+    for q, preds in (("_fill_align_table", ["from_diag"]), ("_fill_align_table_affine", ["mm_score", "g1m_score", "g2m_score"])):
+        f = ctx.src(LG).func(q)
+        for v in preds:
+            adds = [st for st in ast.walk(f) if isinstance(st, ast.AugAssign) and isinstance(st.op, ast.Add) and _same(st.target, v)]
+            plain = [st for st in ast.walk(f) if isinstance(st, ast.Assign) and _same(st.targets[0], v) and isinstance(st.value, ast.BinOp)
+                     and any(isinstance(x, ast.Subscript) and isinstance(x.value, ast.Name) and x.value.id == "matrix" for x in ast.walk(st.value))]
+            ok = len(adds) == 1 and not plain and _spec(f"{v} != 0") in _facts.facts_at(f, adds[0]) and (
+                any(isinstance(x, ast.Subscript) and isinstance(x.value, ast.Name) and x.value.id == "matrix" for x in ast.walk(adds[0].value))
+                or _same(adds[0].value, "similarity_score"))
+            ctx.ob("R3.pruned-cell-not-extended", LG, q, f"{v} += substitution score only if {v} != 0", ok,
+                   f"the diagonal predecessor `{v}` is 0 when that cell was pruned: the substitution score may only be added to a "
+                   "reached cell (guard `!= 0`), otherwise alignments start away from the seed", (adds[0].lineno if adds else f.lineno))
+    # ---- ungapped seed extension: the C variant reports the score through a pointer
+    out_params_written(ctx, LU, "R5.score-out-parameter", 1)
+
 
 MUTANTS = [
+    Mutant("sentinel-headroom-merged", BD, "    neg_inf -= min(gap_penalty) if affine_penalty else gap_penalty\n    min_score = np.min(matrix.score_matrix())\n    if min_score < 0:\n        neg_inf -= min_score\n",
+           "    min_penalty = min(gap_penalty) if affine_penalty else gap_penalty\n    min_score = np.min(matrix.score_matrix())\n    neg_inf -= min(min_penalty, min_score, 0)\n", "R3.sentinel-headroom"),
+    Mutant("upstream-range-check-and", LG, "    if seq1_start == 0 or seq2_start == 0:\n", "    if seq1_start == 0 and seq2_start == 0:\n", "R2.upstream-needs-both-starts"),
+    Mutant("pruned-diagonal-extended", LG, "                if from_diag != 0:\n                    # -1 in sequence index is necessary\n                    # due to the shift of the sequences\n                    # to the bottom/right in the table\n                    from_diag += matrix[code1[i-1], code2[j-1]]\n                else:\n                    from_diag = 0\n",
+           "                from_diag += matrix[code1[i-1], code2[j-1]]\n", "R3.pruned-cell-not-extended"),
+    Mutant("pruned-g1m-extended", LG, "                if g1m_score != 0:\n                    g1m_score += similarity_score\n", "                g1m_score += similarity_score\n", "R3.pruned-cell-not-extended"),
+    Mutant("seed-extend-early-return", LU, "    cdef int32 total_score = 0, max_score = 0\n    cdef int i_max_score = -1\n\n    # Iterate over the symbols in both sequences\n    # The alignment automatically terminates,\n    # if the the end of either sequence is reached\n    for i in range(_min(",
+           "    cdef int32 total_score = 0, max_score = 0\n    cdef int i_max_score = -1\n\n    if code1.shape[0] == 0 or code2.shape[0] == 0:\n        return 0\n    for i in range(_min(", "R5.score-out-parameter", count=2),
     Mutant("seed-pair-only-in-full-mode", LG, "    total_score += score_matrix[code1[seq1_start], code2[seq2_start]]\n", "    if not score_only:\n        total_score += score_matrix[code1[seq1_start], code2[seq2_start]]\n", "R5.same-score-both-modes", qualname="align_local_gapped"),
     Mutant("banded-upper-diag-zero", BD, "            lower_diag=lower_diag, upper_diag=upper_diag\n", "            lower_diag=lower_diag, upper_diag=0\n", "R3.banded-traceback"),
     Mutant("banded-local-affine-start-nostate", BD, "            state_list = np.full(\n                len(i_list), TraceState.MATCH_STATE, dtype=int\n            )", "            state_list = np.full(\n                len(i_list), TraceState.NO_STATE, dtype=int\n            )", "R3.start-states"),
